@@ -6,7 +6,7 @@ import (
 	"go/token"
 	"go/types"
 
-	"golang.org/x/tools/go/ssa"
+	"trzszlint/xssa"
 )
 
 // ctxErrEdge: the CFG edge from->to is taken only when ctx.Err() != nil.
